@@ -99,7 +99,7 @@ def step (st : St) (line : String) : St × String :=
         | .ok (.str t) => "s " ++ bytesHex t
         | .err => "err"
         | .panic => "panic"
-        | .opaque => "opaque")
+        | .outside => "opaque")
     | _, _, _ => (st, "bad-op")
   | ["reset"] => ({}, "reset")
   | _ => (st, "bad-op")
